@@ -79,7 +79,7 @@ def main(ctx):
     ctx.coverage["traces_validated_against_impl"] = int(ctx.counters["evaluations"])
     ctx.coverage["distinct_nontrivial"] = int(ctx.counters["nontrivial"])
     for n in ("recv_over_limit", "recv_within_limit", "header_only_checked", "send_refused",
-              "send_accepted", "bomb_over_cap", "bomb_within_cap", "later_message_checked", "receive_limit_after_refused_send",
+              "send_accepted", "bomb_over_cap", "bomb_within_cap", "later_message_checked", "receive_limit_after_refused_send", "compressed_send_measured",
               "failed_1009", "failed_drop", "bomb_while_closing"):
         ctx.require(n)
 
@@ -393,6 +393,16 @@ def _job_send(a, env):
                                              "S=%d L=%d" % (S, L), arg))
                 else:
                     stats["send_accepted"] += 1
+                    if compress is not None:
+                        # with compression the limit applies to what goes on the wire: the frames just
+                        # written must not carry more than L payload octets for this message
+                        frames_, _used = F.parse_frames(bytes(snd.transport.written[before:]))
+                        onwire = sum(len(f.payload) for f in frames_ if f.opcode in (0, 1, 2))
+                        stats["compressed_send_measured"] = stats.get("compressed_send_measured", 0) + 1
+                        if onwire > L:
+                            viol.append(_mk_viol(a, env, "over-limit-send-accepted",
+                                                 "S=%d L=%d with compression: %d payload octets written for one "
+                                                 "message" % (S, L, onwire), arg))
                     if over is True:
                         viol.append(_mk_viol(a, env, "over-limit-send-accepted",
                                              "S=%d L=%d compress=%s wrote %d" % (S, L, compress, wrote),
